@@ -13,21 +13,24 @@ UnbondingMs == N(1814400000)   \* 21 days: the window inside which stake must no
 Init == l = 1 /\ viol = {} /\ hist = 0 /\ sel = <<>> /\ rep = <<>> /\ cap = 0 /\ reported = {} /\ lastCount = <<>> /\ removed = {} /\ window = UnbondingMs
 
 
-CountedSels(e) == { e.seltok[i].sel : i \in Counted(e.seltok, e.t) }
+\* the selector lock is compared with the block time at nanosecond resolution (a millisecond comparison is wrong when both
+\* fall into the same millisecond): the observed delegations with the lock time in ns, and the block time in ns
+SN(e) == [i \in DOMAIN e.seltok |-> [e.seltok[i] EXCEPT !.locked = e.seltok[i].lockedn]]
+CountedSels(e) == { e.seltok[i].sel : i \in Counted(SN(e), e.tn) }
 
 CheckSubmit(e) ==
   IF ~e.ok THEN {}
-  ELSE (IF e.power = PowerOf(e.seltok, e.t) THEN {}
+  ELSE (IF e.power = PowerOf(SN(e), e.tn) THEN {}
         \* Dev_F27 (open): for a selector with more delegations than the validator cap the stake is summed over the staking
         \* module's "bonded validators by power" walk, which reaches at most cap entries of the power index; a validator that
         \* is bonded at this moment but outside that walk (the index follows delegations and parameter changes at once, the
         \* status only at the end of the block) is left out.  Identity: the recorded power is exactly that sum.
-        ELSE IF "F-27" \in KNOWN /\ e.power = (NSum([i \in Counted(e.seltok, e.t) |-> IF e.seltok[i].cnt > e.seltok[i].maxvals /\ ~e.seltok[i].intop THEN Zero ELSE e.seltok[i].tok], Counted(e.seltok, e.t)) // PowerReduction)
+        ELSE IF "F-27" \in KNOWN /\ e.power = (NSum([i \in Counted(SN(e), e.tn) |-> IF e.seltok[i].cnt > e.seltok[i].maxvals /\ ~e.seltok[i].intop THEN Zero ELSE e.seltok[i].tok], Counted(SN(e), e.tn)) // PowerReduction)
         THEN {"KNOWN:F-27"}
         ELSE {"PowerEqualsBondedStakeOfActiveSelectors"})
-       \cup (IF "origins" \in DOMAIN e /\ OriginsMatch(e.seltok, e.t, e.origins.origins) /\ e.origins.total.mag = StakeOf(e.seltok, e.t)
+       \cup (IF "origins" \in DOMAIN e /\ OriginsMatch(SN(e), e.tn, e.origins.origins) /\ e.origins.total.mag = StakeOf(SN(e), e.tn)
              THEN {}
-             ELSE IF "F-27" \in KNOWN /\ (\E i \in Counted(e.seltok, e.t) : e.seltok[i].cnt > e.seltok[i].maxvals /\ ~e.seltok[i].intop) THEN {"KNOWN:F-27"}
+             ELSE IF "F-27" \in KNOWN /\ (\E i \in Counted(SN(e), e.tn) : e.seltok[i].cnt > e.seltok[i].maxvals /\ ~e.seltok[i].intop) THEN {"KNOWN:F-27"}
              ELSE {"StoredOriginsAreTheCountedStake"})
        \cup (IF e.who \in DOMAIN rep /\ rep[e.who].jailed THEN {"JailedReporterCannotReport"} ELSE {})
        \* Dev_F25 (open): RemoveSelector deletes the selection record, and with it the only trace of the stake having been
